@@ -81,6 +81,7 @@ class StubModel:
         return np.float64(self.xm if dim == 0 else self.ym)
 
     def draw_sample(self, n, *a, **k):
+        self.requested = getattr(self, "requested", []) + [n]
         return np.array(self._sample[:n], dtype=float)
 
 
@@ -88,10 +89,25 @@ def cell(v):
     return float(np.asarray(v, dtype=float).reshape(-1)[0])
 
 
+def as_array(c):
+    """the supplied sample in the dtype / memory layout of the case (same values)"""
+    arr = np.array(c["sample"], dtype=float).astype(c.get("dtype") or float)
+    lay = c.get("layout")
+    if lay == "F":
+        arr = np.asfortranarray(arr)
+    elif lay == "strided":
+        big = np.full((2 * len(arr), 4), -777, dtype=arr.dtype)
+        big[::2, ::2] = arr
+        arr = big[::2, ::2]
+    elif lay == "readonly":
+        arr.setflags(write=False)
+    return arr
+
+
 def run_impl(c, model=None, record=True):
     import virocon.contours as vc
     rec = NpRecorder(np)
-    m = model if model is not None else StubModel(c["xm"], c["ym"])
+    m = model if model is not None else StubModel(c["xm"], c["ym"], c["sample"])
     old = vc.np
     if record:
         vc.np = rec
@@ -101,13 +117,16 @@ def run_impl(c, model=None, record=True):
             warnings.simplefilter("always")
             rec.wl = wl
             try:
-                smp = np.array(c["sample"], dtype=float)
+                smp = None if c.get("drawn") else as_array(c)
                 if c["mode"] == "and":
-                    ct = vc.AndContour(m, c["alpha"], deg_step=c["deg_step"], sample=smp, allowed_error=c["allowed_error"])
+                    ct = vc.AndContour(m, c["alpha"], n=c.get("n"), deg_step=c["deg_step"], sample=smp, allowed_error=c["allowed_error"])
                 else:
-                    ct = vc.OrContour(m, c["alpha"], deg_step=c["deg_step"], sample=smp, allowed_error=c["allowed_error"],
+                    ct = vc.OrContour(m, c["alpha"], n=c.get("n"), deg_step=c["deg_step"], sample=smp, allowed_error=c["allowed_error"],
                                       lowest_theta=c["lowest"], highest_theta=c["highest"])
                 co = ct.coordinates
+                out["n_attr"] = ct.n
+                out["sample_attr"] = np.array(ct.sample, dtype=float)
+                out["requested"] = getattr(m, "requested", [])
                 out["coords"] = [(cell(co[i, 0]), cell(co[i, 1])) for i in range(co.shape[0])]
             except Exception as e:  # noqa
                 out["err"] = type(e).__name__
@@ -152,7 +171,7 @@ def gen_sample(rng, nprng, n):
 def gen_cases(ctx):
     rng, nprng = ctx.rng, ctx.np_rng(0)
     cases = []
-    n_samples = ctx.n(150, 1500)
+    n_samples = ctx.n(120, 1500)
     for si in range(n_samples):
         r = rng.random()
         nmax = ctx.n(5000, 12000)
@@ -202,7 +221,77 @@ def gen_cases(ctx):
     # every OR point beyond 1.1 * max: nothing is kept
     cases.append({"sid": None, "kind": kind, "sample": smp, "alpha": 0.05, "deg_step": 30, "allowed_error": 0.1,
                   "xm": f24(40 * smp[:, 0].max()), "ym": f24(40 * smp[:, 1].max()), "mode": "or", "lowest": 10, "highest": 80})
+    cases += edge_cases(ctx, rng, nprng)
     return cases
+
+
+def edge_cases(ctx, rng, nprng):
+    """on the rim of and beyond the property's quantifier, inside the model: sample drawn instead of supplied, dtypes and memory
+    layouts, angle grids (lowest_theta / highest_theta / deg_step) incl. empty, beyond the first quadrant and single-ray grids,
+    allowed_error 0 / negative / tiny / >= 1, tiny and empty samples, negative observations, alpha beyond its range, zero marginals"""
+    out = []
+    for rep in range(ctx.n(1, 5)):
+        n = rng.randrange(250, 450)
+        kind, smp = gen_sample(rng, nprng, n)
+        alpha0 = rng.choice([0.1, 0.05, 0.2])
+        xm = f24(np.quantile(smp[:, 0], 1 - alpha0) * rng.uniform(0.8, 1.4) + 1e-3)
+        ym = f24(np.quantile(smp[:, 1], 1 - alpha0) * rng.uniform(0.8, 1.4) + 1e-3)
+        base = {"sid": None, "kind": kind, "sample": smp, "alpha": alpha0, "deg_step": rng.choice([10, 15, 7.5]), "allowed_error": rng.choice([0.1, 0.2]),
+                "xm": xm, "ym": ym, "mode": "and", "lowest": 10, "highest": 80}
+
+        def add(tag, **kw):
+            c = dict(base)
+            c.update(kw)
+            c["kind"] = tag
+            out.append(c)
+
+        # sample drawn by the model: n = int(100/alpha) unless n is given; the case's sample is exactly what will be drawn
+        for mode in ("and", "or"):
+            for a, n_given in [(0.25, None), (0.3, None), (0.35, None), (0.15, 250), (0.07, 200)]:
+                want = int(100 / a) if n_given is None else n_given
+                add("drawn", mode=mode, alpha=a, n=n_given, drawn=True, sample=smp[:want], allowed_error=0.2)
+            add("n-given-with-sample", mode=mode, n=rng.choice([1, 17, 10 ** 6]))
+        # dtypes / memory layouts of the supplied array (values representable in every dtype)
+        smp_i = np.round(smp * 8)
+        for mode in ("and", "or"):
+            for dt, lay in [("int64", None), ("int32", "F"), ("float32", None), ("float32", "strided"), (None, "F"), (None, "strided"), (None, "readonly")]:
+                add("array", mode=mode, sample=smp_i, dtype=dt, layout=lay, xm=f24(8 * xm), ym=f24(8 * ym))
+        # angle grids
+        for lo, hi in [(0, 90), (-10, 100), (45, 45), (80, 10), (0, 91), (89, 90), (0, 180), (30, 60.0), (12.5, 77.5), (0, 1)]:
+            add("or-grid", mode="or", lowest=lo, highest=hi)
+        for ds in [0.5, 45, 89, 90, 91, 200]:
+            add("and-step", deg_step=ds)
+            add("or-step", mode="or", deg_step=ds)
+        # allowed_error beyond [0.005, 0.2]
+        for ae in [0.0, -0.1, 1e-6, 0.999, 1.0, 5]:
+            add("allowed-error", allowed_error=ae, deg_step=30)
+            add("allowed-error", mode="or", allowed_error=ae, deg_step=30)
+        # tiny / empty samples
+        for m in [0, 1, 2, 5, 50, 199]:
+            add("tiny", sample=smp[:m], deg_step=30)
+            add("tiny", mode="or", sample=smp[:m], deg_step=30)
+        # negative observations, alpha beyond its range, zero marginals
+        add("negative", sample=smp - np.median(smp, axis=0))
+        add("negative", mode="or", sample=smp - np.median(smp, axis=0))
+        for a in [0.5, 0.9, 1e-4, 1.0, 0.001, 0.2]:
+            add("alpha-rim", alpha=a, deg_step=30)
+            add("alpha-rim", mode="or", alpha=a, deg_step=30)
+        add("zero-marginals", xm=0.0, ym=0.0, deg_step=30)
+        add("zero-marginals", mode="or", xm=0.0, ym=0.0, deg_step=30)
+    return out
+
+
+def corpus_cases():
+    """minimised past failures (corpus/C04/*.json, replay dictionaries): always run first through the oracle"""
+    import glob
+    import json
+    import os
+    out = []
+    for fn in sorted(glob.glob(os.path.join(vlib.VERIF, "corpus", "C04", "*.json"))):
+        d = json.load(open(fn))
+        d = d.get("replay", d)
+        out.append(dict(d, kind="corpus/" + os.path.basename(fn), sample=np.array(d["sample"], dtype=float).reshape(-1, 2)))
+    return out
 
 
 # ------------------------------------------------------------------ Coq side
@@ -217,21 +306,23 @@ Definition pclose (a b : float * float) := fclose (fst a) (fst b) && fclose (snd
 Definition pexact (a b : float * float) := fbits_eq (fst a) (fst b) && fbits_eq (snd a) (snd b).
 Definition nwarned (rs : list (ray float)) : nat := List.length (filter (fun r => r_warned r) rs).
 (* 0 bit-exact; 1 coordinates within 1e-9; 2 error vs result; 3 number of points; 4 iteration counts differ;
-   5 number of warnings differs; 6 coordinates differ *)
+   5 number of warnings differs; 6 coordinates differ; 7 attribute n differs from int(100/alpha) / the given n *)
 Definition check (res : option (list (float * float)) * list (ray float)) (coords : option (list (float * float)))
-           (traces : list (list nat)) (nwarn : nat) : Z :=
+           (traces : list (list nat)) (nwarn : nat) (n_opt : option Z) (alpha : float) (n_attr : Z) : Z :=
   let '(co, rs) := res in
   match co, coords with
   | None, None => 0%Z
   | Some p, Some q =>
-      if negb (all2 (fun r t => all2 Nat.eqb (r_trace r) t) rs traces) then 4%Z
+      if negb (Z.eqb (sample_size_f n_opt alpha) n_attr) then 7%Z
+      else if negb (all2 (fun r t => all2 Nat.eqb (r_trace r) t) rs traces) then 4%Z
       else if negb (Nat.eqb (nwarned rs) nwarn) then 5%Z
       else if negb (Nat.eqb (List.length p) (List.length q)) then 3%Z
       else if all2 pexact p q then 0%Z else if all2 pclose p q then 1%Z else 6%Z
   | _, _ => 2%Z
   end.
 """
-CODES = {2: "error vs result", 3: "number of points", 4: "exceedance counts per iteration", 5: "number of warnings", 6: "coordinates"}
+CODES = {2: "error vs result", 3: "number of points", 4: "exceedance counts per iteration", 5: "number of warnings", 6: "coordinates",
+         7: "attribute n (int(100/alpha) or the given n)"}
 
 
 def tab_lit(tab):
@@ -252,7 +343,8 @@ def coq_case(c, r):
                                                                   fl(c["allowed_error"]), fl(c["xm"]), fl(c["ym"]), fl(c["lowest"]), fl(c["highest"]), fl(c["deg_step"]))
     coords = "None" if "err" in r else "(Some %s)" % pts_lit(r["coords"])
     traces = "[" + "; ".join("[" + "; ".join("%d" % k for k in t) + "]" for t in rec.traces) + "]%nat"
-    return "(check (%s) %s %s %d%%nat)" % (call, coords, traces, r["nwarn"])
+    nopt = "None" if c.get("n") is None else "(Some %d%%Z)" % c["n"]
+    return "(check (%s) %s %s %d%%nat %s %s %d%%Z)" % (call, coords, traces, r["nwarn"], nopt, fl(c["alpha"]), int(r.get("n_attr", 0)))
 
 
 # ------------------------------------------------------------------ property oracle (search)
@@ -271,10 +363,21 @@ def oracle(c, r=None):
     if r is None:
         r = run_impl(c)
     cls = "AndContour" if c["mode"] == "and" else "OrContour"
-    smp = np.asarray(c["sample"], dtype=float)
+    smp = np.asarray(c["sample"], dtype=float).reshape(-1, 2)
     x, y = smp[:, 0], smp[:, 1]
     n = len(smp)
     alpha, allowed, ds = c["alpha"], c["allowed_error"], c["deg_step"]
+    # which sample the contour is computed from: n = int(100/alpha) points drawn unless n or the sample is given
+    if "err" not in r and "sample_attr" in r:
+        if c.get("drawn"):
+            want = int(100 / alpha) if c.get("n") is None else c["n"]
+            if r["requested"] != [want] or r["n_attr"] != want or len(r["sample_attr"]) != min(want, n):
+                return ({"class": cls, "clause": "sample-size"}, "no sample supplied, alpha=%r, n=%r: draw_sample asked for %r points, attribute n = %r, expected %d" % (
+                    alpha, c.get("n"), r["requested"], r["n_attr"], want))
+        elif r["requested"] or r["sample_attr"].shape != smp.shape or not np.array_equal(r["sample_attr"], np.asarray(as_array(c), dtype=float)):
+            return ({"class": cls, "clause": "sample-size"}, "a sample was supplied but the contour drew %r points / stores another sample" % (r["requested"],))
+    if n == 0 or (c.get("xm") == 0 and c.get("ym") == 0):
+        return None      # nothing to exceed / no ray to move along (max_distance = 0)
     if not (0 < allowed < 1):
         return None      # outside the property (the search loop is documented for a precision below 1)
     lo, hi = (0, 90) if c["mode"] == "and" else (c["lowest"], c["highest"])
@@ -470,7 +573,7 @@ def run(ctx):
         head = ""
         if c["sid"] not in defined:
             defined.add(c["sid"])
-            head = "Definition smp_%d := %s.\n" % (c["sid"], pts_lit(c["sample"]))
+            head = "Definition smp_%d : list (float * float) := %s.\n" % (c["sid"], pts_lit(np.asarray(c["sample"], dtype=float).reshape(-1, 2)))
         cur.append((idx, head, coq_case(c, r)))
         vol += w + work // 40
     if cur:
@@ -497,7 +600,10 @@ def run(ctx):
     # ---- search: property oracle, disagreeing inputs first
     found = 0
     seen = set()
-    stream = [(cases[i], results[i]) for i in suspects] + [(c, r) for i, (c, r) in enumerate(zip(cases, results)) if i not in set(suspects)]
+    stream = [(c, run_impl(c)) for c in corpus_cases()]
+    ctx.notes["corpus_cases"] = len(stream)
+    ctx.cov["evaluations"] += len(stream)
+    stream += [(cases[i], results[i]) for i in suspects] + [(c, r) for i, (c, r) in enumerate(zip(cases, results)) if i not in set(suspects)]
     try:
         stream += real_model_cases(ctx)
     except Exception as e:  # noqa
@@ -514,8 +620,9 @@ def run(ctx):
         if key in seen:
             continue
         seen.add(key)
-        small = shrink(c, o[0]) if c["xm"] is not None else c
-        o2 = (oracle(small) if c["xm"] is not None else None) or o
+        shrinkable = c["xm"] is not None and not c.get("drawn") and o[0].get("clause") != "sample-size"
+        small = shrink(c, o[0]) if shrinkable else c
+        o2 = (oracle(small) if shrinkable else None) or o
         if ctx.violation(o2[0], o2[1], to_replay(small)):
             found += 1
     ctx.notes["rays_with_warning_exceedance_not_judged"] = unjudged
